@@ -423,7 +423,7 @@ def judge_o_tangent(inp, obs, lr):
 def gen_o_along(rng, n):
     for _ in range(n):
         dim = rng.choice([2, 3, 4, 5])
-        yield {"dim": dim, "a": rand_tv(rng, dim), "b": rand_tv(rng, dim), "t1": rng.uniform(-4, 4), "t2": rng.uniform(-4, 4),
+        yield {"dim": dim, "a": rand_tv(rng, dim), "b": rand_tv(rng, dim), "t1": G.rand_real(rng, -4, 4), "t2": G.rand_real(rng, -4, 4),
                "q": G.fball(rng, dim, 0.95), "qs": rng.choice([-1, 1]) * rng.uniform(0.3, 3)}
 
 
@@ -436,14 +436,14 @@ def run_o_along(inp):
     p = H.Point(np.array(ta.point, dtype=float).copy())
     pvec = np.array(ta.point, dtype=float).copy()
     v1 = np.array(ta.vector, dtype=float).copy()
-    x1 = ta.point_along(inp["t1"])
+    x1 = ta.point_along(G.unpack(inp["t1"]))
     d1 = _d(p, x1)
     # on the geodesic spanned: x1 in span(p, v)
     A = np.stack([pvec, v1, np.array(x1.proj_data, dtype=float)])
     sv = np.linalg.svd(A / np.linalg.norm(A, axis=1, keepdims=True), compute_uv=False)
     # second tangent vector at the same point, law of cosines
     tb = H.TangentVector(H.Point(pvec.copy()), np.array(inp["b"]["v"])).normalized()
-    x2 = tb.point_along(inp["t2"])
+    x2 = tb.point_along(G.unpack(inp["t2"]))
     ang = float(np.asarray(mk2(pvec, v1).angle(tb)).reshape(-1)[0])
     # the angle does not depend on the lengths of the tangent vectors
     ang_scaled = float(np.asarray(mk2(pvec, 3.7 * v1).angle(mk2(pvec, 0.4 * np.array(tb.vector, dtype=float)))).reshape(-1)[0])
@@ -467,14 +467,19 @@ def mk2(p, v):
 def judge_o_along(inp, obs, lr):
     if "exc" in obs:
         return {"expected": "points", "observed": obs, "tags": {"exc": obs["exc"]}}
-    t1, t2 = inp["t1"], inp["t2"]
-    if not abs(obs["d1"] - abs(t1)) <= 1e-6:
-        return {"expected": {"d(p, point_along(t))": abs(t1)}, "observed": obs["d1"], "tags": {"what": "distance", "neg": t1 < 0}}
+    t1, t2 = G.val(inp["t1"]), G.val(inp["t2"])
+    # a float32 distance carries 6e-8 relative error into tanh t, amplified by cosh^2 t in the distance
+    f32 = G.is32(inp["t1"]) or G.is32(inp["t2"])
+    dtol = 1e-6 * (1 + abs(t1)) + (3e-7 * math.cosh(t1) ** 2 if G.is32(inp["t1"]) else 0.0)
+    if not abs(obs["d1"] - abs(t1)) <= dtol:
+        return {"expected": {"d(p, point_along(t))": abs(t1)}, "observed": obs["d1"],
+                "tags": {"what": "distance", "neg": t1 < 0, "pack": inp["t1"]["pack"] if isinstance(inp["t1"], dict) else "float",
+                         "integral": float(t1).is_integer()}}
     if not obs["rank3"] <= 1e-7:
         return {"expected": "point on the geodesic spanned by the tangent vector", "observed": obs["rank3"], "tags": {"what": "span"}}
     lhs = math.cosh(obs["c"])
     rhs = math.cosh(t1) * math.cosh(t2) - math.sinh(t1) * math.sinh(t2) * math.cos(obs["ang"])
-    if not abs(lhs - rhs) <= 1e-6 * (1 + abs(rhs)):
+    if not abs(lhs - rhs) <= (1e-3 if f32 else 1e-6) * (1 + abs(rhs)):
         return {"expected": {"law of cosines rhs": rhs}, "observed": lhs, "tags": {"what": "law_of_cosines"}}
     if not abs(obs["ang_scaled"] - obs["ang"]) <= 1e-7:
         return {"expected": {"angle independent of the vectors' lengths": obs["ang"]}, "observed": obs["ang_scaled"], "tags": {"what": "angle", "unequal_lengths": True}}
@@ -496,20 +501,22 @@ def gen_o_poly(rng, n):
         k = 3 + (i % 10)
         dim = rng.choice([2, 2, 3, 4])
         amax = (k - 2) * math.pi / k
-        yield {"n": k, "dim": dim, "angle": rng.uniform(0.03 * amax, 0.97 * amax), "by_radius": rng.random() < 0.4,
-               "radius": rng.uniform(0.05, 3.0)}
+        ang = G.rand_real(rng, 0.03 * amax, 0.97 * amax, p_int=0.25, ints=[1] if 1 < 0.97 * amax else [])
+        yield {"n": k, "dim": dim, "angle": ang, "by_radius": rng.random() < 0.4,
+               "radius": G.rand_real(rng, 0.05, 3.0, ints=[1, 2, 3]), "n_pack": rng.choice(["int", "int", "np.int64"])}
 
 
 def run_o_poly(inp):
     k, dim = inp["n"], inp["dim"]
+    kp = G.pack(k, inp.get("n_pack", "int"))
     if inp["by_radius"]:
-        r = inp["radius"]
+        r = G.val(inp["radius"])
         a = float(H.polygon_interior_angle(k, r))
-        P = H.Polygon.regular_polygon(k, radius=r, dimension=dim)
+        P = H.Polygon.regular_polygon(kp, radius=G.unpack(inp["radius"]), dimension=dim)
     else:
-        a = inp["angle"]
+        a = G.val(inp["angle"])
         r = float(H.regular_polygon_radius(k, a))
-        P = H.Polygon.regular_polygon(k, angle=a, dimension=dim)
+        P = H.Polygon.regular_polygon(kp, angle=G.unpack(inp["angle"]), dimension=dim)
     V = P.get_vertices()
     data = np.array(V.proj_data, dtype=float)
     cnt = data.shape[0]
@@ -530,9 +537,17 @@ def run_o_poly(inp):
 def judge_o_poly(inp, obs, lr):
     if "exc" in obs:
         return {"expected": "regular polygon", "observed": obs, "tags": {"exc": obs["exc"]}}
-    tags = {"n": inp["n"], "by_radius": inp["by_radius"]}
+    which = inp["radius"] if inp["by_radius"] else inp["angle"]
+    tags = {"n": inp["n"], "by_radius": inp["by_radius"], "pack": which["pack"] if isinstance(which, dict) else "float",
+            "integral": G.val(which).is_integer(), "n_pack": inp.get("n_pack", "int")}
     if obs["cnt"] != inp["n"]:
         return {"expected": f"{inp['n']} vertices", "observed": obs["cnt"], "tags": dict(tags, what="count")}
+    if G.is32(which):
+        # float32 parameter: only ~7 digits go in; equal radii/sides are still exact, values compared at 1e-4
+        if not (np.ptp(obs["radii"]) <= 1e-6 and np.ptp(obs["sides"]) <= 1e-6 and np.ptp(obs["angles"]) <= 1e-6
+                and abs(obs["radii"][0] - obs["r"]) <= 1e-4 * (1 + math.cosh(obs["r"]) ** 2) and abs(obs["angles"][0] - obs["a"]) <= 1e-4 * (1 + math.cosh(obs["r"]) ** 2)):
+            return {"expected": "regular polygon (float32 parameter)", "observed": obs, "tags": dict(tags, what="float32")}
+        return None
     if not np.abs(np.array(obs["radii"]) - obs["r"]).max() <= 1e-6:
         return {"expected": {"all radii": obs["r"]}, "observed": obs["radii"], "tags": dict(tags, what="radii")}
     if not np.ptp(obs["sides"]) <= 1e-6:
@@ -562,7 +577,7 @@ def gen_o_history(rng, n):
             elif op == "set":
                 st["tv"] = rand_tv(rng, dim)
             elif op == "point_along":
-                st["t"] = rng.uniform(-2.5, 2.5)
+                st["t"] = G.rand_real(rng, -2.5, 2.5)
             elif op == "isometry_to":
                 st["tv"] = rand_tv(rng, dim)
             elif op == "angle":
@@ -570,7 +585,7 @@ def gen_o_history(rng, n):
                 st["scale"] = rng.uniform(0.2, 5)
             steps.append(st)
         # every history ends with the three queries, so that whatever happened before is observed
-        steps += [{"op": "origin_to", "fo": rng.random() < 0.5}, {"op": "point_along", "t": rng.uniform(-2.5, 2.5), "fo": True},
+        steps += [{"op": "origin_to", "fo": rng.random() < 0.5}, {"op": "point_along", "t": G.rand_real(rng, -2.5, 2.5), "fo": True},
                   {"op": "isometry_to", "tv": rand_tv(rng, dim), "fo": rng.random() < 0.5}]
         yield {"dim": dim, "start": rand_tv(rng, dim), "steps": steps, "obj": rng.choice(["tangent", "tangent", "point"])}
 
@@ -624,12 +639,12 @@ def run_o_history(inp):
                         and G.parallel_pos(np.sign(np.array(img.point)[0]) * np.sign(p0[0]) * np.array(img.vector, dtype=float), d0, 1e-6)})
         elif op == "point_along":
             p0, d0 = _tv_state(tv)
-            x = tv.normalized().point_along(st["t"])
+            x = tv.normalized().point_along(G.unpack(st["t"]))
             xd = np.array(x.proj_data, dtype=float)
             dist = _d(H.Point(p0.copy()), x)
             A = np.stack([p0 / np.linalg.norm(p0), d0 / np.linalg.norm(d0), xd / np.linalg.norm(xd)])
             log.append({"k": k, "op": op, "what": "point_along: distance |t| on the geodesic of this vector",
-                        "ok": abs(dist - abs(st["t"])) <= 1e-6 and np.linalg.svd(A, compute_uv=False)[-1] <= 1e-7,
+                        "ok": abs(dist - abs(G.val(st["t"]))) <= 1e-5 * (1 + abs(G.val(st["t"]))) and np.linalg.svd(A, compute_uv=False)[-1] <= 1e-7,
                         "dist": dist, "t": st["t"]})
         elif op == "isometry_to":
             p0, d0 = _tv_state(tv)
@@ -664,6 +679,39 @@ def judge_o_history(inp, obs, lr):
     return None
 
 
+def gen_o_surface(rng, n):
+    for i in range(n):
+        yield {"g": 2 + (i % 4)}
+
+
+def run_o_surface(inp):
+    g = inp["g"]
+    P = H.Polygon.regular_surface_polygon(g)
+    data = np.array(P.get_vertices().proj_data, dtype=float)
+    cnt = data.shape[0]
+    o = H.Point.get_origin(2)
+    radii = [_d(o, H.Point(data[i].copy())) for i in range(cnt)]
+    angles = []
+    for i in range(cnt):
+        t1 = H.Point(data[i].copy()).unit_tangent_towards(H.Point(data[(i - 1) % cnt].copy()))
+        t2 = H.Point(data[i].copy()).unit_tangent_towards(H.Point(data[(i + 1) % cnt].copy()))
+        angles.append(float(np.asarray(t1.angle(t2)).reshape(-1)[0]))
+    return {"cnt": cnt, "radii": radii, "angles": angles, "r": float(H.genus_g_surface_radius(g))}
+
+
+def judge_o_surface(inp, obs, lr):
+    g = inp["g"]
+    if "exc" in obs:
+        return {"expected": "regular 4g-gon", "observed": obs, "tags": {"exc": obs["exc"], "g": g}}
+    if obs["cnt"] != 4 * g:
+        return {"expected": f"{4 * g} vertices", "observed": obs["cnt"], "tags": {"g": g, "what": "count"}}
+    if not np.abs(np.array(obs["radii"]) - obs["r"]).max() <= 1e-6:
+        return {"expected": {"radius genus_g_surface_radius(g)": obs["r"]}, "observed": obs["radii"], "tags": {"g": g, "what": "radii"}}
+    if not (np.abs(np.array(obs["angles"]) - math.pi / (2 * g)).max() <= 1e-6 and abs(sum(obs["angles"]) - 2 * math.pi) <= 1e-5):
+        return {"expected": "interior angles pi/(2g), summing to 2 pi", "observed": obs["angles"], "tags": {"g": g, "what": "angles"}}
+    return None
+
+
 CLAUSES = [
     Clause("origin_corr", "corr", gen_origin, run_origin, judge_origin, lean=lean_origin, site="hyperbolic.Point.origin_to",
            budget={"quick": 120, "thorough": 3000},
@@ -688,6 +736,8 @@ CLAUSES = [
            budget={"quick": 150, "thorough": 5000}, what="base tangent -> positive multiple; isometry_to carries basepoint and direction"),
     Clause("along_oracle", "oracle", gen_o_along, run_o_along, judge_o_along, site="hyperbolic.TangentVector.point_along",
            budget={"quick": 200, "thorough": 8000}, what="|t| along a unit tangent (both signs), on the geodesic, law of cosines, towards q reaches q"),
+    Clause("surface_polygon_oracle", "oracle", gen_o_surface, run_o_surface, judge_o_surface, site="hyperbolic.Polygon.regular_surface_polygon",
+           budget={"quick": 8, "thorough": 8}, what="regular_surface_polygon(g), g = 2..5: 4g vertices at radius genus_g_surface_radius(g), interior angles pi/(2g) summing to 2 pi"),
     Clause("history_oracle", "oracle", gen_o_history, run_o_history, judge_o_history, site="hyperbolic.TangentVector.origin_to",
            budget={"quick": 150, "thorough": 5000},
            what="histories of 6-10 steps on one tangent vector / point: queries (origin_to, point_along, isometry_to, angle with unequal lengths, normalized) "
